@@ -12,6 +12,7 @@ type PropSpec struct {
 	Assumptions []string
 	Replay      map[string]*ReplaySpec
 	Harness     []string // harness file prefixes (default: the property id)
+	AttributeByReplay bool // violations labelled for a sibling property count here iff the native replay shows this property's oracle failing
 	solverDesc  string
 }
 
@@ -230,20 +231,29 @@ func init() {
 				js = append(js, &Job{Pkg: pkgScheduler, Func: "VerifSchedPass", Args: []int64{2, e, am}, Timeout: 10 * time.Minute})
 			}
 		}
+		for ie := int64(0); ie < 64; ie++ {
+			js = append(js, &Job{Pkg: pkgScheduler, Func: "VerifSchedNested", Args: []int64{ie, 1, 1, 0}, Timeout: 30 * time.Minute, MaxSteps: 5000000000})
+			if tier == "thorough" {
+				for _, pd := range []int64{0, 3} {
+					js = append(js, &Job{Pkg: pkgScheduler, Func: "VerifSchedNested", Args: []int64{ie, pd, 0, 0}, Timeout: 30 * time.Minute, MaxSteps: 5000000000})
+				}
+			}
+		}
 		js = append(js, &Job{Pkg: pkgScheduler, Func: "VerifSchedWorker", Args: []int64{0}, Timeout: 5 * time.Minute})
 		js = append(js, &Job{Pkg: pkgScheduler, Func: "VerifSchedWorker", Args: []int64{1}, Timeout: 5 * time.Minute})
 		return js
 	}
 	schedBounds := map[string]interface{}{
-		"quick":    "every directed graph on 3 stages (64 edge sets over ordered pairs; the 25 acyclic ones are analysed, declaration order = visiting order so all orders are covered) and on 2 stages; per stage symbolic allow_failure, outcome, condition absent/true/false. (a) interference mode: ONE pass / the exit path of the real Schedule from an ARBITRARY state satisfying the invariant, worker interference (rely relation) at every atomic operation - covers runs of any length and every fine-grained interleaving; (b) the real worker closure for a task stage and a nested-pipeline stage against the rely relation; (c) thread mode: whole Schedule runs from the initial state, interleavings enumerated with preemption bound 1",
+		"quick":    "every directed graph on 3 stages (64 edge sets over ordered pairs; the 25 acyclic ones are analysed, declaration order = visiting order so all orders are covered) and on 2 stages; per stage symbolic allow_failure, outcome, condition absent/true/false. (a) interference mode: ONE pass / the exit path of the real Schedule from an ARBITRARY state satisfying the invariant, worker interference (rely relation) at every atomic operation - covers runs of any length and every fine-grained interleaving; (b) the real worker closure for a task stage and a nested-pipeline stage against the rely relation; (c) thread mode: whole Schedule runs from the initial state, interleavings enumerated with preemption bound 1; (d) thread mode: an outer pipeline a->b, p(a) whose stage p is a nested pipeline over every 3-stage graph REUSING the names a, b, c, symbolic outcomes",
 		"thorough": "same graphs; thread-mode cross-check with preemption bound 2",
 	}
 	schedOutside := []string{"more than 3 stages (a 4-stage graph did not finish within 20 minutes per graph in interference mode, nor in thread mode: not registered)", "nesting deeper than one level (the nested Schedule call is the same function; the worker harness checks that its result is propagated)", "a stage condition that cannot be evaluated, and external Cancel (cancellation: see C12 / C03 thread-mode harness)", "wall-clock overlap: the 50 ms pause is the cut point / a deschedule", "the composition step obligations => property is a hand argument (DESIGN C01-C04); the thread-mode runs are its end-to-end cross-check"}
 	schedAssume := []string{"rely relation iStep/iMayStop for workers (validated against the real goroutine body by VerifSchedWorker)", "checkStageCondition stubbed: a stage's condition has a fixed truth value", "runner.Runner stubbed; tasks terminate", "sync/atomic, WaitGroup, go statements: engine intrinsics; sequential consistency at atomic operations", "map iteration order = insertion (declaration) order; all orders covered by enumerating edge sets over ordered pairs"}
-	schedReplay := map[string]*ReplaySpec{"*": {PkgDir: "pkg/scheduler", File: "C01_replay_test.go", Test: "TestVerifReplaySched"}}
+	schedReplay := map[string]*ReplaySpec{"*": {PkgDir: "pkg/scheduler", File: "C01_replay_test.go", Test: "TestVerifReplaySched"},
+		"VerifSchedNested": {PkgDir: "pkg/scheduler", File: "C01_replay_test.go", Test: "TestVerifReplaySchedNested"}}
 	for _, id := range []string{"C01", "C02", "C03", "C04"} {
-		covers := []string{"C01.acyclic-graph", "C01.launch", "C03.pass-reaches-the-pause", "C03.schedule-returns", "C01.worker-checked", "C03.whole-run-returns", "C04.all-eligible-started-in-one-pass"}
-		register(&PropSpec{ID: id, Jobs: schedJobs, Harness: []string{"C01"}, Covers: covers, Bounds: schedBounds, Outside: schedOutside, Assumptions: schedAssume, Replay: schedReplay})
+		covers := []string{"C01.nested-run-returns", "C01.acyclic-graph", "C01.launch", "C03.pass-reaches-the-pause", "C03.schedule-returns", "C01.worker-checked", "C03.whole-run-returns", "C04.all-eligible-started-in-one-pass"}
+		register(&PropSpec{ID: id, Jobs: schedJobs, Harness: []string{"C01"}, AttributeByReplay: true, Covers: covers, Bounds: schedBounds, Outside: schedOutside, Assumptions: schedAssume, Replay: schedReplay})
 	}
 
 	c12jobs := func(tier string) []*Job {
